@@ -2111,7 +2111,7 @@ def _run(ck: core.Check, env: Env, info):
     info = dict(info, resolves=resolves)
     cases = gen_cases(ck, info)
     # which cases also get the later steps (builds, inference, value propagation)
-    n_steps = ck.pick(840 if getattr(ck, "c19_escalated", False) else 420, 2200)
+    n_steps = ck.pick(600 if getattr(ck, "c19_escalated", False) else 300, 2200)
     idx = list(range(len(cases)))
     def steppable(c):
         ds = [d for v in c.get("lists", {}).values() for d in v] + list(c.get("singles", {}).values())
